@@ -141,6 +141,7 @@ def r4_unordered_samples(ctx):
 
 
 def run(ctx):
+    ctx.guard("C13.DRV", "operators execute through their driver", lambda: __import__("initspec").check_delegations(ctx, "C13", 4))
     ctx.guard("C13.INIT", "init installs the configured state", lambda: __import__("initspec").check_for(ctx, "C13"))
     ctx.guard("C13.K17", "constructor fidelity", lambda: __import__("ctor").check_for(ctx, "C13", 57))
     ctx.guard("C13.R2", "permutation helpers", lambda: r2_helpers(ctx))
